@@ -256,7 +256,7 @@ impl Stream for Generated
 	}
 	fn count(&self, tier: Tier) -> u64
 	{
-		tier.pick(1500, 60_000)
+		tier.pick(3000, 60_000)
 	}
 	fn choice_len(&self) -> usize
 	{
@@ -351,7 +351,7 @@ impl Stream for SplitModules
 	}
 	fn count(&self, tier: Tier) -> u64
 	{
-		tier.pick(1200, 30_000)
+		tier.pick(2500, 30_000)
 	}
 	fn choice_len(&self) -> usize
 	{
